@@ -818,7 +818,13 @@ def fam_recurse(rnd, i):
                 a = rnd.choice(cands)
                 b = a[:-1] + (rnd.choice(["x", "dir", "su", "sub3", "dir11"]) + str(cnt[0]),)
                 cnt[0] += 1
-                steps += [fs("rename", a, to=b), drain(w)]
+                if rnd.random() < 0.15:
+                    # renamed twice before the first move is handled (the consumer is not reading)
+                    c = a[:-1] + ("twice%d" % cnt[0],)
+                    steps += [fs("rename", a, to=b), fs("rename", b, to=c), drain(w)]
+                    b = c
+                else:
+                    steps += [fs("rename", a, to=b), drain(w)]
                 dirs = [b + d[len(a):] if d[:len(a)] == a else d for d in dirs]
                 if rnd.random() < 0.4:             # a new directory under the old name
                     steps += [fs("mkdir", a), drain(w)]
